@@ -120,6 +120,12 @@ def step (st : Unit) : List String → Unit × String
             | none => (st, "bad-op")
           | _ => (st, "bad-op")
     | _, _, _, _, _, _, _ => (st, "bad-op")
+  | ["stackcfg", f] =>
+    (st, match stackHandlers f with
+      | none => "none"
+      | some hs =>
+        if hs.isEmpty then "-" else
+        ",".intercalate (hs.map fun | .error => "error" | .echo => "echo" | .custom _ => "custom"))
   | ["const"] => (st, s!"max {SCMP_ERROR_MAX_PACKET_SIZE} maxhdr {MAX_HEADER_SIZE} scmp {PROTO_SCMP} udp {PROTO_UDP} cover {CHECKSUM_COVERS_MESSAGE} verify {VERIFY_CHECKSUM_ON_RECEIVE} unknownerr {NO_REPLY_TO_UNKNOWN_ERROR}")
   | _ => (st, "bad-op")
 
